@@ -438,6 +438,10 @@ def _pycmp(op, a, b):
 
 def identical(ctx: Ctx, a, b):
     """`is`: identity for None / enum members / sentinels / objects"""
+    if a is b:
+        return True
+    if type(a).__name__ == "SymMsg" or type(b).__name__ == "SymMsg":
+        return False
     if isinstance(a, SymOpt) or isinstance(b, SymOpt):
         if isinstance(b, SymOpt) and not isinstance(a, SymOpt):
             a, b = b, a
